@@ -27,12 +27,12 @@ type fontSpec struct {
 	CID bool // CID-keyed
 
 	FontName, Version, Notice, Copyright, FullName, FamilyName, Weight string
-	NoticeRepeat                                                     int // Notice is repeated this many times (large String INDEX)
+	NoticeRepeat                                                       int // Notice is repeated this many times (large String INDEX)
 
-	IsFixedPitch                           bool
-	ItalicAngle                            float64
+	IsFixedPitch                          bool
+	ItalicAngle                           float64
 	UnderlinePosition, UnderlineThickness float64
-	FontMatrix                             [6]float64
+	FontMatrix                            [6]float64
 
 	// name-keyed fonts
 	NameMode int
